@@ -604,7 +604,29 @@ def job_from_payload(ctx, body, idx):
             "entries": entries, "rf": rf}
 
 
+def check_registry_coverage(ctx):
+    """review A21: the template table is compared with the real registry on every run"""
+    from codemodder.codemods.base_codemod import RemediationCodemod
+    from codemodder.registry import load_registered_codemods
+    registered = {c.id: c for c in load_registered_codemods().codemods if isinstance(c, RemediationCodemod)}
+    have = {t.id for t in S.TEMPLATES}
+    ctx.count("registry:sast_codemods", len(registered))
+    ctx.count("registry:sast_codemods_with_template", len(have & set(registered)))
+    for cid in sorted(set(registered) - have - set(S.NOT_COVERED)):
+        ctx.mismatch("C06 end-to-end coverage", f"registered SAST codemod {cid} has no site template and is not listed in NOT_COVERED",
+                     {"op": "coverage", "codemod": cid})
+    for cid in sorted((have | set(S.NOT_COVERED)) - set(registered)):
+        ctx.mismatch("C06 end-to-end coverage", f"{cid} is in the template table but is not a registered SAST codemod", {"op": "coverage", "codemod": cid})
+    for t in S.TEMPLATES:
+        c = registered.get(t.id)
+        if c is not None and t.rule not in c.requested_rules:
+            ctx.mismatch("C06 end-to-end coverage", f"{t.id}: the template's rule id {t.rule} is not one of the codemod's requested rules "
+                         f"{c.requested_rules}", {"op": "coverage", "codemod": t.id})
+    ctx.notes.append("SAST codemods not exercised end to end (NOT_COVERED): " + "; ".join(f"{k} ({v})" for k, v in sorted(S.NOT_COVERED.items())))
+
+
 def run_e2e(ctx):
+    check_registry_coverage(ctx)
     rng = ctx.rng
     quick = ctx.quick()
     deep = getattr(ctx, "deep", False)
